@@ -133,11 +133,11 @@ func genTerm(t *rapid.T) termCase {
 			// the client answers the gateway's farewell DISCONNECT with a DISCONNECT of its own, which
 			// arrives while the session is winding down: the session was ended by the shutdown, so
 			// the will must not be cancelled
-			add(gwgen.Adv(int64(rapid.SampledFrom([]int{1, 20, 60, 99}).Draw(t, "ack_ms"))), gwgen.SN(gwgen.Disconnect(0)))
+			add(gwgen.Adv(int64(rapid.SampledFrom([]int{1, 20, 60, 99}).Draw(t, "ack_ms"))), gwgen.SN(plainDisconnect(t)))
 			c.LateDisconnect = true
 		}
 	case "disconnect":
-		add(gwgen.SN(gwgen.Disconnect(0)))
+		add(gwgen.SN(plainDisconnect(t)))
 	case "mqclose":
 		add(gwgen.MQClose())
 	case "sneof":
@@ -321,4 +321,14 @@ func TestC13Dial(t *testing.T) {
 		},
 		Run: runDialCase,
 	})
+}
+
+// plainDisconnect draws one of the two encodings of a DISCONNECT without sleep: without the
+// Duration field, or with the field present and zero (04 18 00 00).
+func plainDisconnect(t *rapid.T) snref.Pkt {
+	p := gwgen.Disconnect(0)
+	if rapid.IntRange(0, 2).Draw(t, "explicit_zero") == 0 {
+		p.NoDuration, p.ForceDuration = false, true
+	}
+	return p
 }
